@@ -68,7 +68,7 @@ def translate():
 
 
 # ------------------------------------------------------------------ Coq encoding
-def c_url(u): return "(Url %d %d)" % u
+def c_url(u): return "(Url %d %d)" % tuple(u)
 def c_optn(x): return "None" if x is None else "(Some %d)" % x
 def c_cookies(cs): return C.clist("(%d,%d)" % c for c in cs)
 def c_sets(sets): return C.clist("(MsgSet %s %s %s)" % ({"bank": "SBank", "cc": "SCc", "inv": "SInv", "other": "SOther"}[k], c_url(u), C.cbool(cl)) for k, u, cl in sets)
@@ -198,7 +198,8 @@ class Server:
         home = url_of_str(rq.url)
         if self.script is not None:
             a = dict(self.script.pop(0)) if self.script else {"payload": "opaque", "transport": False}
-            a.setdefault("transport", True); a.setdefault("status", 200); a.setdefault("cookies", [])
+            a.setdefault("transport", True); a.setdefault("status", 200)
+            a["cookies"] = [tuple(c) for c in a.get("cookies", [])]
             if a["payload"] == "profile":
                 a["profile"] = self.profile(a["date"], [(k, tuple(u), cl) for k, u, cl in a["sets"]])
         else:
